@@ -456,6 +456,34 @@ func runC09(r *Run, verifDir string) {
 				}
 			})
 		}
+		// the item a recovered panic is reported on is the pre-filled one: the recover closure lives in the function that
+		// builds the echoing item
+		for _, fn := range pkgFuncs(p, "kmipserver") {
+			if fn.Parent() == nil {
+				continue
+			}
+			hasRecover, reports := false, false
+			allInstrs(fn, func(in ssa.Instruction) {
+				if c, ok := in.(*ssa.Call); ok {
+					if b, ok := c.Call.Value.(*ssa.Builtin); ok && b.Name() == "recover" {
+						hasRecover = true
+					}
+					if strings.HasSuffix(resolvedCallID(&c.Call, 0).name, "handleBatchItemError") {
+						reports = true
+					}
+				}
+			})
+			if !hasRecover || !reports {
+				continue
+			}
+			encl := fn.Parent()
+			opE, idE := echoField(encl, func(v ssa.Value) bool { _, isParam := v.(*ssa.Parameter); return isParam })
+			if opE && idE {
+				r.OK("C09.B3", fnKey(fn)+"/panic-item-echo", fn.Pos(), "a recovered panic is reported on the item that was pre-filled with the request's Operation and UniqueBatchItemID")
+			} else {
+				r.Bad("C09.B3", fnKey(fn)+"/panic-item-echo", fn.Pos(), "the item on which a recovered panic is reported is not the one pre-filled with the request item's Operation and UniqueBatchItemID: a panicking item comes back without its id")
+			}
+		}
 		// the pre-filled item is the one returned: nothing else is ever assigned to the result
 		replaced := token.NoPos
 		allInstrs(ei, func(in ssa.Instruction) {
@@ -720,6 +748,42 @@ func runC15(r *Run, verifDir string) {
 			}
 		}
 	})
+	// ... on every path: each value newBatchContext returns is that WithValue result
+	everyReturn := true
+	for _, b := range nb.Blocks {
+		ret, ok := b.Instrs[len(b.Instrs)-1].(*ssa.Return)
+		if !ok || len(ret.Results) != 1 {
+			continue
+		}
+		var isFresh func(v ssa.Value, d int) bool
+		isFresh = func(v ssa.Value, d int) bool {
+			if d > 4 {
+				return false
+			}
+			switch x := v.(type) {
+			case *ssa.Call:
+				if callID(&x.Call).is("context", "", "WithValue") {
+					if mi, ok := x.Call.Args[2].(*ssa.MakeInterface); ok && al != nil && mi.X == ssa.Value(al) {
+						return true
+					}
+					// further values stacked on top of the fresh holder
+					return isFresh(x.Call.Args[0], d+1)
+				}
+			case *ssa.Phi:
+				for _, e := range x.Edges {
+					if !isFresh(e, d+1) {
+						return false
+					}
+				}
+				return true
+			}
+			return false
+		}
+		if !isFresh(ret.Results[0], 0) {
+			everyReturn = false
+		}
+	}
+	r.Check(everyReturn, "C15.O1", "kmipserver.newBatchContext/every-path", nb.Pos(), "every return of newBatchContext carries the freshly allocated holder", "newBatchContext can return a context that does not carry a fresh holder (e.g. it reuses the batch state already present in the parent context): a request nested in, or following, another one starts with that request's placeholder")
 	r.Check(al != nil && al.Heap && !setsPlaceholder && withValue, "C15.O1", "kmipserver.newBatchContext", nb.Pos(), "allocates a new batchData whose idPlaceholder is the zero value and attaches it under ctxBatch{}", "newBatchContext does not create a fresh holder with an empty placeholder under the ctxBatch key")
 	top := p.Func("kmipserver", "BatchExecutor", "HandleRequest")
 	if top == nil {
